@@ -177,7 +177,7 @@ def gen_history_scenario(rng: random.Random, *, acyclic: bool = False, max_steps
     state = project.gen_project(rng, acyclic=acyclic, max_mods=max_mods)
     cfg = dict(cfg or rng.choice(STORE_CONFIGS))
     clock_mode = clock_mode or rng.choice(["plain", "wild", "wild"])
-    n = rng.randint(2, max_steps)
+    n = rng.randint(min(2, max_steps), max_steps)
     steps = []
     sim = copy.deepcopy(state)
     for _ in range(n):
